@@ -329,6 +329,27 @@ def run_c18(ctx):
     """batch vs single, thread counts, failing subsets; schedule hook replay"""
     r = ctx.rng
     cfgproto = "w=120,b=0,m=1,t=0,tw=2,ci=2,crlf=0"
+    # many failing files in one invocation: the aggregation of failures into the exit status must not depend on how
+    # many there are (counts around the widths of small counters: 2^8, 2^9, and 2^16 in the thorough tier)
+    many = [255, 256, 257, 512] + ([65536] if ctx.count >= 300 else [])
+    for k in many:
+        d = os.path.join(ctx.tmp, "many%d" % k)
+        os.makedirs(os.path.join(d, "bad"))
+        for j in range(k):
+            with open(os.path.join(d, "bad", "u%05d.pas" % j), "wb") as f:
+                f.write(b"a := \xc3\x28;")
+        good = {"g1.pas": b"a  :=  1 ;\n", "g2.pas": b"begin  end .\n"}
+        for name, c in good.items():
+            with open(os.path.join(d, name), "wb") as f:
+                f.write(c)
+        threads = r.choice([1, 4])
+        rc, so, se = ctx.run(["-C", "line_ending=lf", "-C", "encoding=utf-8", "bad", "g1.pas", "g2.pas"], cwd=d, env={"RAYON_NUM_THREADS": str(threads)})
+        ctx.bump("many_failing_files_probes")
+        if rc == 0:
+            ctx.failures.append({"kind": "oracle", "what": "c18: exit status 0 but %d files failed" % k, "cfg": "threads=%d,n=%d" % (threads, k + 2), "input_hex": "-", "family": "c18"})
+        if open(os.path.join(d, "g1.pas"), "rb").read() != b"a := 1;\n" or open(os.path.join(d, "g2.pas"), "rb").read() != b"begin\nend.\n":
+            ctx.failures.append({"kind": "oracle", "what": "c18: a good file next to %d failing files is not formatted as it is alone" % k, "cfg": "threads=%d,n=%d" % (threads, k + 2), "input_hex": "-", "family": "c18"})
+        shutil.rmtree(d, ignore_errors=True)
     for i in range(ctx.count):
         d = os.path.join(ctx.tmp, "b%d" % i)
         os.makedirs(d)
